@@ -510,6 +510,4 @@ Proof.
   fold n.
   assert (Hlen : (0 < length shanks)%nat) by (destruct shanks; [congruence|cbn; lia]).
   repeat split; try reflexivity; try lia.
-  cbn [andb].
-  destruct (n - 1 =? 0) eqn:E1; [lia|reflexivity].
 Qed.
